@@ -1645,7 +1645,14 @@ class TrajectoryStore:
                     nc_files.species or [],
                 )
                 data[name] = val
-                if Dimension.POINT in field.dimensions and npoints is None:
+                # The number of points is taken from the first pointwise field
+                # that has a value (optional fields may be unset).
+                if (
+                    Dimension.POINT in field.dimensions
+                    and npoints is None
+                    and val is not None
+                    and len(val) > 0
+                ):
                     if Dimension.SPECIES in field.dimensions:
                         # Get number of points from arbitrary entry in the
                         # SpeciesValues dictionary here.
